@@ -235,10 +235,97 @@ STRS = ["a", "b", "c", "", " ", "x y", "Infinity", "NaN", "null", "q\"uote", "ba
         "\U0001f600", "\x00\x1f", "~xff", "{\"variables\": [], \"objectives\": [], \"constraints\": []}", "MINIMIZE", "\ud800"]
 
 
-def mk_decl(rng):
+THRESHOLDS = [0.0, 0.5, -1.0, 0.25, 1e-3, 1 / 3, 1234567.0, 1234564, 6.02214076e23, -1234.5678901, 0.1 + 0.2, 5e-324, 1e300, 0.0123456789,
+              3, -3, -0.0, 2 ** 60 + 1, 1e-7, 123456789.12345679, math.pi, 1e22, 1e16, 9007199254740993, -5e-324, 1.7976931348623157e308,
+              2.5, 10.0, 100000.0, 1000000.0, 0.1, 1e21, 1e-5, 0.30000000000000004, 2.2250738585072014e-308]
+OPERATORS = ["==", "<=", ">=", "!=", "<", ">"]
+SPELLINGS = ["text", "text-space", "text-spaces", "two-arg", "two-arg-copy", "object-from-text", "copy-of-object"]
+
+
+def mk_decl(rng, stats=None):
+    """a constraint declaration in one of the spellings the library accepts:
+    "<=0.5", "<= 0.5", Constraint("<=", 0.5), Constraint objects / copies, predefined constants, the legacy pool"""
     from platypus import Constraint
-    d = rng.choice(DECLS)
-    return Constraint(d[0], d[1]) if isinstance(d, tuple) else d
+    k = rng.random()
+    if k < 0.1:
+        sp = "predefined-constant"
+        d = rng.choice([Constraint.EQUALS_ZERO, Constraint.LEQ_ZERO, Constraint.GEQ_ZERO, Constraint.LESS_THAN_ZERO, Constraint.GREATER_THAN_ZERO])
+    elif k < 0.25:
+        sp = "legacy-pool"
+        d = rng.choice(DECLS)
+        d = Constraint(d[0], d[1]) if isinstance(d, tuple) else d
+    else:
+        op = rng.choice(OPERATORS)
+        if rng.random() < 0.8:
+            t = rng.choice(THRESHOLDS)
+        else:
+            t = gen_float(rng)
+            while not math.isfinite(t):
+                t = gen_float(rng)
+        sp = rng.choice(SPELLINGS)
+        txt = repr(t)
+        if sp == "text":
+            d = op + txt
+        elif sp == "text-space":
+            d = op + " " + txt
+        elif sp == "text-spaces":
+            d = op + "   " + txt
+        elif sp == "two-arg":
+            d = Constraint(op, t)
+        elif sp == "two-arg-copy":
+            d = Constraint(Constraint(op, t))
+        elif sp == "object-from-text":
+            d = Constraint(op + " " + txt)
+        else:
+            d = Constraint(Constraint(op + txt))
+    if stats is not None:
+        stats[sp] = stats.get(sp, 0) + 1
+    return d
+
+
+def decl_of(c):
+    """(operator, threshold) the in-memory Constraint object really applies"""
+    f = c.function
+    assert isinstance(f, functools.partial)
+    return OPNAME[f.func.__name__], f.keywords["y"]
+
+
+def build_tab(declared_problems, loaded_problems):
+    """Constraint(op text) -> (operator, threshold) for the model: the DECLARED meaning, read off the in-memory objects
+    the caller holds (saved / supplied problems); texts that only occur on the loaded side (the placeholder's "==0") are parsed"""
+    tab = {}
+    for p in declared_problems:
+        for c in arr(p.constraints):
+            if isinstance(c.op, str):
+                tab.setdefault(c.op, decl_of(c))
+    ops = {"==0"}
+    for p in loaded_problems:
+        ops.update(c.op for c in arr(p.constraints) if isinstance(c.op, str))
+    for op in sorted(ops):
+        if op not in tab:
+            tab[op] = ctab_entry(op)
+    return tab
+
+
+def loaded_literals(loaded, supplied, dist):
+    """L19 literals of what the loader returned; the violation magnitude is shipped when the float computation the loader
+    really did (with the thresholds its own constraint objects hold) is exact"""
+    ls = []
+    for b in loaded:
+        actual = [decl_of(c) for c in arr(b.problem.constraints)]
+        v = b.constraint_violation
+        ex = exact_violation(actual, arr(b.constraints))
+        if ex is not None and isinstance(v, (int, float)) and math.isfinite(v) and Fraction(v) == ex:
+            cv = "(Some (Some %s))" % C.xq_lit(float(v))
+            dist["violation_exact"] = dist.get("violation_exact", 0) + 1
+        else:
+            cv = "None"
+            dist["violation_inexact_or_infinite"] = dist.get("violation_inexact_or_infinite", 0) + 1
+        ls.append("(L19 %s %s %s %s %s %s %s)" % (
+            jlist(arr(b.variables)), jlist(arr(b.objectives)), jlist(arr(b.constraints)),
+            C.bool_lit(v == 0.0), cv, C.bool_lit(bool(b.feasible)),
+            problem_lit(b.problem, "Supplied" if b.problem is supplied else "Placeholder")))
+    return ls
 
 
 def decl_threshold(c):
@@ -347,9 +434,10 @@ def gen_scenario(seed, big=False):
     for i in range(nobjs):
         if rng.random() < 0.45:
             p.directions[i] = Direction.MAXIMIZE
+    sc.spellings = {}
     for i in range(nconstrs):
-        if rng.random() < 0.8:
-            p.constraints[i] = mk_decl(rng)
+        if rng.random() < 0.85:
+            p.constraints[i] = mk_decl(rng, sc.spellings)
     sc.problem = p
     sc.kinds = sorted(set(k for k, _ in types))
     n = rng.choice([0, 1, 1, 2, 2, 3, 5]) if not big else rng.randrange(1, 40)
@@ -468,6 +556,27 @@ def parse_plain(text):
 # ----------------------------------------------------------------------------
 # oracle: the property statement on the real objects
 # ----------------------------------------------------------------------------
+def restored_threshold_problem(p, sp):
+    """None, or what is wrong with the thresholds of the restored constraints of p w.r.t. the declared ones of sp:
+    the value parsed back from the restored constraint's op text, and the value its function applies, must be the declared float"""
+    for i, (c1, c2) in enumerate(zip(arr(p.constraints), arr(sp.constraints))):
+        if not (isinstance(c1.op, str) and isinstance(c2.op, str)):
+            continue
+        want = decl_threshold(c2)
+        m = DECL_RE.match(c1.op)
+        if not m:
+            return "restored constraint %d has op text %r" % (i, c1.op)
+        try:
+            got_text = float(m.group(2))
+        except ValueError:
+            return "restored constraint %d has op text %r" % (i, c1.op)
+        got_fn = decl_threshold(c1)
+        if bits(got_text) != bits(want) or bits(got_fn) != bits(want):
+            return "constraint %d declared %s with threshold %s (%r): restored op text %r parses to %s, restored function applies %s" % (
+                i, m.group(1), want.hex(), want, c1.op, got_text.hex(), got_fn.hex())
+    return None
+
+
 def oracle_json(ctx, src, saved_problem, is_algorithm, supplied, loaded, replay, tag):
     """src: the solutions written, in order.  Returns True when nothing was reported."""
     ok = True
@@ -507,6 +616,8 @@ def oracle_json(ctx, src, saved_problem, is_algorithm, supplied, loaded, replay,
                 bad("json:algorithm-problem-shape-not-restored", "saved shape %r, loaded %r" % ((sp.nvars, sp.nobjs, sp.nconstrs), (p.nvars, p.nobjs, p.nconstrs)))
             elif arr(p.directions) != arr(sp.directions):
                 bad("json:algorithm-directions-not-restored", "saved directions %r, loaded %r" % ([d.name for d in arr(sp.directions)], [getattr(d, "name", d) for d in arr(p.directions)]))
+            elif restored_threshold_problem(p, sp):
+                bad("json:algorithm-constraint-threshold-not-restored", restored_threshold_problem(p, sp))
             elif [c.op for c in arr(p.constraints)] != [c.op for c in arr(sp.constraints)]:
                 bad("json:algorithm-constraints-not-restored", "saved constraints %r, loaded %r" % ([c.op for c in arr(sp.constraints)], [c.op for c in arr(p.constraints)]))
             else:
@@ -521,6 +632,21 @@ def oracle_json(ctx, src, saved_problem, is_algorithm, supplied, loaded, replay,
                 bad("json:placeholder-shape", "placeholder problem has shape %r for solutions of shape %r" % ((p.nvars, p.nobjs, p.nconstrs), shp))
     if not ok:
         return False
+    # the declarations in force on load are those of the ORIGINAL in-memory problem (algorithm file read without a problem: they are
+    # restored; or the original problem itself was supplied): every solution must get exactly the violation / feasibility it had
+    if loaded and ((supplied is None and is_algorithm) or (supplied is not None and supplied is saved_problem)):
+        for i, (a, b) in enumerate(zip(src, loaded)):
+            if not (hasattr(a, "feasible") and isinstance(a.constraint_violation, (int, float))):
+                continue
+            va, vb = a.constraint_violation, b.constraint_violation
+            if not (isinstance(vb, (int, float)) and bits(float(va)) == bits(float(vb))):
+                bad("json:violation-differs-from-original-problem", "solution %d constraints %r: the in-memory problem %r gave constraint_violation=%r, "
+                    "after load (declarations %r) it is %r" % (i, describe(arr(a.constraints)), [(c.op, decl_threshold(c).hex()) for c in arr(saved_problem.constraints)],
+                                                              describe(va), [c.op for c in arr(b.problem.constraints)], describe(vb)))
+            elif bool(a.feasible) != bool(getattr(b, "feasible", None)):
+                bad("json:feasible-differs-from-original-problem", "solution %d: feasible was %r, after load %r" % (i, a.feasible, getattr(b, "feasible", None)))
+        if not ok:
+            return False
     # violation / feasibility consistent with the declarations of the problem used on load
     for i, b in enumerate(loaded):
         decls = arr(b.problem.constraints)
@@ -607,6 +733,9 @@ def run_json_case(ctx, tmp, sc, writer, loader, big, dist, want_lit=True):
     dist["n_solutions"][min(len(src), 6)] = dist["n_solutions"].get(min(len(src), 6), 0) + 1
     for k in sc.kinds:
         dist["variable_kinds"][k] = dist["variable_kinds"].get(k, 0) + 1
+    if writer == "list" and loader == "none":
+        for sp, n in getattr(sc, "spellings", {}).items():
+            dist["constraint_spellings"][sp] = dist["constraint_spellings"].get(sp, 0) + n
     maxed = any(d.name == "MAXIMIZE" for d in arr(sc.problem.directions))
     if src and (maxed or sc.problem.nconstrs or set(sc.kinds) - {"real"} or any(len(repr(v)) > 12 for s in src for v in arr(s.objectives) if isinstance(v, float))):
         ctx.mark(hashlib.sha1((text + "|" + loader).encode("utf-8", "surrogatepass")).hexdigest())
@@ -619,34 +748,13 @@ def run_json_case(ctx, tmp, sc, writer, loader, big, dist, want_lit=True):
     else:
         saved = "(%s Z %s)" % ("SvList" if writer == "list" else "SvArchive", C.list_lit([sol_lit(s) for s in src]))
     sup = "None" if supplied is None else "(Some %s)" % problem_lit(supplied, "Supplied")
-    ops = {"==0"}
-    for p in [sc.problem, sc.other] + [s.problem for s in loaded if hasattr(s, "problem")]:
-        ops.update(c.op for c in arr(p.constraints) if isinstance(c.op, str))
-    tab = {op: ctab_entry(op) for op in sorted(ops)}
-    ctab = C.list_lit(["(%s, (%s, %s))" % (cstr(op), opn, C.xq_lit(y)) for op, (opn, y) in tab.items()])
     try:
+        tab = build_tab([sc.problem, sc.other], [x.problem for x in loaded if hasattr(x, "problem")])
+        ctab = C.list_lit(["(%s, (%s, %s))" % (cstr(op), opn, C.xq_lit(y)) for op, (opn, y) in tab.items()])
         file_lit = jlit(parse_plain(text))
-    except Exception as e:
-        ctx.violation("json:file-not-json", "%s: %r [%s]" % (type(e).__name__, e, tag), replay)
-        return None
-    ls = []
-    for b in loaded:
-        try:
-            decls = [tab[c.op] for c in arr(b.problem.constraints)]
-            v = b.constraint_violation
-            ex = exact_violation(decls, arr(b.constraints))
-            if ex is not None and isinstance(v, (int, float)) and math.isfinite(v) and Fraction(v) == ex:
-                cv = "(Some (Some %s))" % C.xq_lit(float(v))
-                dist["violation_exact"] = dist.get("violation_exact", 0) + 1
-            else:
-                cv = "None"
-                dist["violation_inexact_or_infinite"] = dist.get("violation_inexact_or_infinite", 0) + 1
-            ls.append("(L19 %s %s %s %s %s %s %s)" % (
-                jlist(arr(b.variables)), jlist(arr(b.objectives)), jlist(arr(b.constraints)),
-                C.bool_lit(v == 0.0), cv, C.bool_lit(bool(b.feasible)),
-                problem_lit(b.problem, "Supplied" if b.problem is supplied else "Placeholder")))
-        except Exception:
-            return None        # something that cannot be abstracted came back; the oracle has already spoken
+        ls = loaded_literals(loaded, supplied, dist)
+    except Exception:
+        return None        # something that cannot be abstracted came back; the oracle has already spoken
     oneprob = all(b.problem is loaded[0].problem for b in loaded)
     return "(K19 %s %s %s %s %s %s)" % (saved, sup, ctab, file_lit, C.list_lit(ls), C.bool_lit(oneprob))
 
@@ -750,6 +858,29 @@ def live_algorithms(seed):
             solution.objectives[:] = [x[0] / 3, x[1] * 1e-300]
             solution.constraints[:] = [x[0] * x[1]]
     out.append(("NSGAII/real/subclass", NSGAII, Sub(), {"population_size": 6}))
+    # random declarations in every spelling; the function returns constraint values AT the declared thresholds and their float neighbours
+    for cls, nm in ((NSGAII, "NSGAII"), (EpsMOEA, "EpsMOEA"), (NSGAII, "NSGAII"), (SPEA2, "SPEA2")):
+        nc = rng.randrange(1, 4)
+        stats = {}
+        decls = [mk_decl(rng, stats) for _ in range(nc)]
+        p = Problem(2, 2, nc, function=None)
+        p.types[:] = Real(0, 1)
+        p.directions[rng.randrange(2)] = Direction.MAXIMIZE
+        for i, d in enumerate(decls):
+            p.constraints[i] = d
+        pools = []
+        for c in arr(p.constraints):
+            y = decl_threshold(c)
+            pools.append([y, math.nextafter(y, INF), math.nextafter(y, -INF), y, y + 1.0, y - 1.0, -y, 0.0, gen_float(rng), gen_float(rng)])
+
+        def f_pool(x, pools=pools):
+            k = int(x[0] * 1e6) + 7 * int(x[1] * 1e6)
+            return [x[0], x[1] * x[1]], [pl[(k + 3 * i) % len(pl)] for i, pl in enumerate(pools)]
+        p.function = f_pool
+        kw = {"population_size": 8}
+        if cls is EpsMOEA:
+            kw["epsilons"] = [0.05]
+        out.append(("%s/real/function+declared-thresholds(%s)" % (nm, ",".join(sorted(stats))), cls, p, kw))
     res = []
     for name, cls, prob, kw in out:
         _random.seed(rng.getrandbits(32))
@@ -780,7 +911,10 @@ def run_live(ctx, tmp, seed, dist, lits):
                 ctx.violation("json:save-or-load-raises", "%s: %r [%s]" % (type(e).__name__, e, tag), replay)
                 continue
             oracle_json(ctx, src, alg.problem, True, supplied, loaded, replay, tag)
-            dist["live"][name] = dist["live"].get(name, 0) + 1
+            dist["live"][name.split("(")[0]] = dist["live"].get(name.split("(")[0], 0) + 1
+            if "(" in name and loader == "none":
+                for sp in name.split("(")[1].rstrip(")").split(","):
+                    dist["constraint_spellings"][sp] = dist["constraint_spellings"].get(sp, 0) + 1
             ctx.mark(hashlib.sha1((text + "|" + loader).encode("utf-8", "surrogatepass")).hexdigest())
             # Coq literal through the same path as the synthetic cases
             lit = live_literal(ctx, alg, src, supplied, sc, text, loaded, dist)
@@ -793,26 +927,9 @@ def live_literal(ctx, alg, src, supplied, sc, text, loaded, dist):
         saved = "(SvAlgorithm Z (mkAlgo Z %s %s %s %s))" % (cstr(type(alg).__name__), C.z_lit(alg.nfe), problem_lit(alg.problem, "Supplied"),
                                                          C.list_lit([sol_lit(s) for s in src]))
         sup = "None" if supplied is None else "(Some %s)" % problem_lit(supplied, "Supplied")
-        ops = {"==0"}
-        for p in [sc.problem, sc.other] + [s.problem for s in loaded]:
-            ops.update(c.op for c in arr(p.constraints) if isinstance(c.op, str))
-        tab = {op: ctab_entry(op) for op in sorted(ops)}
+        tab = build_tab([sc.problem, sc.other], [x.problem for x in loaded])
         ctab = C.list_lit(["(%s, (%s, %s))" % (cstr(op), opn, C.xq_lit(y)) for op, (opn, y) in tab.items()])
-        ls = []
-        for b in loaded:
-            decls = [tab[c.op] for c in arr(b.problem.constraints)]
-            v = b.constraint_violation
-            ex = exact_violation(decls, arr(b.constraints))
-            if ex is not None and math.isfinite(v) and Fraction(v) == ex:
-                cv = "(Some (Some %s))" % C.xq_lit(float(v))
-                dist["violation_exact"] = dist.get("violation_exact", 0) + 1
-            else:
-                cv = "None"
-                dist["violation_inexact_or_infinite"] = dist.get("violation_inexact_or_infinite", 0) + 1
-            ls.append("(L19 %s %s %s %s %s %s %s)" % (
-                jlist(arr(b.variables)), jlist(arr(b.objectives)), jlist(arr(b.constraints)),
-                C.bool_lit(v == 0.0), cv, C.bool_lit(bool(b.feasible)),
-                problem_lit(b.problem, "Supplied" if b.problem is supplied else "Placeholder")))
+        ls = loaded_literals(loaded, supplied, dist)
         oneprob = all(b.problem is loaded[0].problem for b in loaded)
         return "(K19 %s %s %s %s %s %s)" % (saved, sup, ctab, jlit(parse_plain(text)), C.list_lit(ls), C.bool_lit(oneprob))
     except Exception:
@@ -884,7 +1001,7 @@ PRELUDE = "From Coq Require Import String.\nFrom PV Require Import Model.JsonMod
 
 def run(ctx):
     rng = ctx.rng
-    dist = {"writer": {}, "loader": {}, "n_solutions": {}, "variable_kinds": {}, "live": {}}
+    dist = {"writer": {}, "loader": {}, "n_solutions": {}, "variable_kinds": {}, "live": {}, "constraint_spellings": {}}
     tmp = tempfile.mkdtemp(prefix="c19_")
     lits, olits = [], []
     try:
@@ -913,11 +1030,11 @@ def run(ctx):
         shutil.rmtree(tmp, ignore_errors=True)
     ctx.coverage["input_distribution"] = dist
     ctx.rule = ("scenario = random problem (0-4 variables of kinds Real/Binary/Integer(Gray bits)/Permutation of ints or strings/Subset/raw JSON scalars, mixed; "
-                "0-3 objectives min/max; 0-3 constraint declarations in 20 spellings) + 0-5 solutions (1-39 in the oracle-only stream) with floats from all "
+                "0-3 objectives min/max; 0-3 constraint declarations in every spelling ('<=0.5', '<= 0.5', Constraint('<=', 0.5), Constraint objects and copies, predefined constants) over a threshold pool with many-digit / extreme floats and ints) + 0-5 solutions (1-39 in the oracle-only stream) with floats from all "
                 "classes (random bit patterns, every exponent, subnormals, +-0.0, +-inf, nextafter neighbours, decimal boundaries; constraint values on/next to "
                 "thresholds); each written from list / Archive / algorithm(list result) / algorithm(Archive result) and read with no problem / the same problem / "
                 "another problem of that shape, through save_json/load_json (str, pathlib, bytes paths) or dump/load, indent None/0/2/4; objectives files likewise; "
-                "live NSGAII/SPEA2/EpsMOEA/GeneticAlgorithm runs on function- and subclass-based problems; non-trivial = at least one solution and "
+                "live NSGAII/SPEA2/EpsMOEA/GeneticAlgorithm runs on function- and subclass-based problems, incl. problems with random declarations whose function returns constraint values at the declared thresholds and their float neighbours; non-trivial = at least one solution and "
                 "(a maximised objective, a constraint, a non-Real variable encoding or a long-repr float); distinct by file text + loader")
     sc0 = next((x for x in (get_scenario(sd) for sd in seeds[1:40]) if len(x.sols) >= 2 and x.problem.nconstrs and x.problem.nvars >= 2), get_scenario(seeds[1]))
     ctx.sample({"scenario_seed": sc0.seed, "problem": {"nvars": sc0.problem.nvars, "nobjs": sc0.problem.nobjs, "nconstrs": sc0.problem.nconstrs,
@@ -968,7 +1085,7 @@ def run(ctx):
 def replay(ctx, data):
     rp = data.get("replay", {})
     kind = rp.get("kind")
-    dist = {"writer": {}, "loader": {}, "n_solutions": {}, "variable_kinds": {}, "live": {}}
+    dist = {"writer": {}, "loader": {}, "n_solutions": {}, "variable_kinds": {}, "live": {}, "constraint_spellings": {}}
     tmp = tempfile.mkdtemp(prefix="c19_")
     try:
         if kind == "json":
